@@ -179,6 +179,7 @@ def run_model(spec_text):
             mt["content"] = unhx(nxt())
             c = nxt()
             mt["command"] = None if c == "<FAIL>" else unhx(c)
+            mt["emitted"] = nxt() == "1"
             mt["key"] = task_key(mt)
             res["tasks"].append(mt)
     return res
@@ -246,7 +247,7 @@ class Scratch:
         shutil.rmtree(self.root, ignore_errors=True)
 
 
-def run_impl(sc, spec, env=None, timeout=60, crash=None, yield_seed=None, binary="wfrun", gomaxprocs=None):
+def run_impl(sc, spec, env=None, timeout=60, crash=None, yield_seed=None, binary="wfrun", gomaxprocs=None, kill_after=None):
     """one run of the real library in sc.work; returns observables"""
     specp = os.path.join(sc.root, "SPEC")
     open(specp, "w").write(spec.text(with_files=False))
@@ -272,8 +273,20 @@ def run_impl(sc, spec, env=None, timeout=60, crash=None, yield_seed=None, binary
     p = subprocess.Popen([os.path.join(vlib.BIN, binary), specp], cwd=sc.work, env=e, stdout=subprocess.PIPE, stderr=subprocess.PIPE,
                          start_new_session=True, text=True)
     timed_out = False
+    killed = False
     try:
-        out, err = p.communicate(timeout=timeout)
+        if kill_after is not None:
+            try:
+                out, err = p.communicate(timeout=kill_after)
+            except subprocess.TimeoutExpired:
+                killed = True
+                try:
+                    os.killpg(p.pid, signal.SIGKILL)
+                except ProcessLookupError:
+                    pass
+                out, err = p.communicate()
+        else:
+            out, err = p.communicate(timeout=timeout)
     except subprocess.TimeoutExpired:
         timed_out = True
         try:
@@ -286,7 +299,7 @@ def run_impl(sc, spec, env=None, timeout=60, crash=None, yield_seed=None, binary
         os.killpg(p.pid, signal.SIGKILL)
     except (ProcessLookupError, PermissionError):
         pass
-    res = {"rc": p.returncode, "timed_out": timed_out, "stdout": out, "stderr": err, "wall": time.time() - t0}
+    res = {"rc": p.returncode, "timed_out": timed_out, "killed": killed, "stdout": out, "stderr": err, "wall": time.time() - t0}
     res["returned"] = "RUN-RETURNED" in out
     snap_at_return = {}
     for ln in out.splitlines():
@@ -322,11 +335,13 @@ def run_impl(sc, spec, env=None, timeout=60, crash=None, yield_seed=None, binary
 IGNORED = re.compile(r"^(wfrun\.log|REC\..*|log(/.*)?)$")
 
 
-def data_files(fs, audit=False):
-    """regular files of a snapshot that are workflow data (not logs, audit files, recorder output)"""
+def data_files(fs, audit=False, temp=False):
+    """regular files of a snapshot that are workflow data (not logs, audit files, recorder output, content of temp dirs)"""
     out = {}
     for p, (kind, data, ino, mt) in fs.items():
         if kind != "f" or IGNORED.match(p):
+            continue
+        if not temp and any(seg.startswith("_scipipe_tmp") for seg in p.split("/")):
             continue
         if p.endswith(".audit.json") and not audit:
             continue
@@ -461,3 +476,49 @@ def report_t3(rep, module, proved, results, what_corr, violation_kinds=None):
         rep.violation("proof obligations of %s no longer check: %s" % (module, rep.notes.get("broken_obligations") or rep.notes.get("open_assumptions")),
                       {"kind": "proof-obligation", "theorem_or_correspondence": module + " / " + what_corr, "detail": rep.notes.get("broken_obligations") or rep.notes.get("open_assumptions")}, nofail=True)
     return found
+
+
+# ------------------------------------------------------------------ crash points
+
+def hook_points(spec, prefixes=("exec.", "fin.", "run.", "wf.", "ct."), sample_others=0, rng=None):
+    """one hooked reference run; returns the list of (point, n) hits in the order they happened"""
+    sc = Scratch()
+    try:
+        sc.plant(spec.files)
+        impl = run_impl(sc, spec)
+        pts = [(name, n) for ts, name, n, keys in impl["hooks"]]
+        main = [p for p in pts if p[0].startswith(prefixes)]
+        others = [p for p in pts if not p[0].startswith(prefixes)]
+        if sample_others and others and rng:
+            main += rng.sample(others, min(sample_others, len(others)))
+        return main, impl
+    finally:
+        sc.close()
+
+
+def atomicity_problems(spec, model, fs, planted=None):
+    """C01 on a snapshot: anything at a declared output path is the complete output of a successful command (or was planted);
+    nothing else appeared outside the temp dirs"""
+    problems = []
+    planted = planted if planted is not None else spec.files
+    real = data_files(fs)
+    declared = {}
+    for t in model["tasks"]:
+        for port, st, path in t["outs"]:
+            if not st:
+                declared[os.path.normpath(path)] = t
+    for p, c in real.items():
+        if p in planted:
+            if planted[p] != c:
+                problems.append(("planted-modified", "pre-existing file %r changed" % p))
+            continue
+        t = declared.get(p)
+        if t is None:
+            if p in {os.path.normpath(x) for x in model["files"]}:
+                continue      # additional files of completed tasks
+            problems.append(("foreign-file", "file %r appeared outside the temp dirs and is no declared output" % p))
+        elif t["status"] not in ("run",):
+            problems.append(("output-of-unsuccessful-task", "output %r of task %r (%s) is visible at its final path" % (p, t["key"], t["status"])))
+        elif c != t["content"]:
+            problems.append(("partial-output", "final path %r holds %r, the complete output is %r" % (p, (c or "")[:40], t["content"][:40])))
+    return problems
